@@ -332,10 +332,6 @@ MATCHERS = {
     and TYPE_CONFUSION.search(f.extra.get("msg", "")) is not None,
     "F22-settings-internal-slot": lambda f: f.kind == "internal-exception" and bool(sh(f).get("odd_settings"))
     and TYPE_CONFUSION.search(f.extra.get("msg", "")) is not None,
-    "F44-table-list-unlisted-select": lambda f: crash(f, {"KeyError"}, r"^xls2json\.py:workbook_to_json$")
-    and sh(f).get("table_list_unlisted"),
-    "F13-osm-unlisted": lambda f: crash(f, {"TypeError"}, r"^xls2json\.py:workbook_to_json$") and sh(f).get("osm_unlisted")
-    and "NoneType" in f.extra.get("msg", ""),
     "F30-deep-nesting": lambda f: f.kind == "internal-exception" and f.extra.get("exc") == "RecursionError"
     and sh(f).get("depth", 0) > 100,
     "F34-survey-internal-column": lambda f: f.kind == "internal-exception" and bool(sh(f).get("internal_cols"))
@@ -537,6 +533,10 @@ ALIAS_TOKENS = {k: v.split("::") for k, v in formobs.CANON.items()}
 ALIAS_TOKENS.update({"constraint_message": ["bind", "jr:constraintMsg"], "required_message": ["bind", "jr:requiredMsg"]})
 
 
+KNOWN_LOWER_COLS = {"type", "name", "label", "hint", "default", "parameters", "trigger", "choice_filter", "disabled", "bind",
+                    "control", "media", "instance", "guidance_hint", "intent", "query", "list_name"}
+
+
 def typed_rows(form):
     """the survey rows as header grouping leaves them: string cells, nested pair lists for grouped columns
     (the harness's own reading of sheet_headers.process_header / process_row for conflict-free rows)"""
@@ -561,6 +561,8 @@ def typed_rows(form):
                 continue
             t = list(toks[h])
             first = snake(t[0])
+            if first != t[0] and first not in ALIAS_TOKENS and first not in KNOWN_LOWER_COLS:
+                first = t[0]  # "avoid changing unknown columns" (process_header): the original spelling is kept
             t = (ALIAS_TOKENS.get(first) or [first]) + t[1:]
             ok = put(cells, t, re.sub(r"( )+", " ", str(v).strip())) and ok
         if not ok:
@@ -651,7 +653,142 @@ def rowloop_forms(rng):
                 yield kind, odd, f
 
 
+# ------------------------------------------------------------------------------- stream P: header splitting, settings reads
+
+ODD_HEADERS = ["x:jr", "a:b:jr", "jr", "jr:jr", "a:jr:b", "bind:jr:count", " x : jr ", "jr:", "label:jr", "x:jr:y:jr",
+               "hint:en", "a:b", "bind: relevant", "jr:count", "x : y : jr", "media:image:jr"]
+SETTING_KEYS_READ = ["clean_text_values", "add_none_option", "allow_choice_duplicates", "omit_instanceID", "children",
+                     "flat", "public_key", "instance_name", "default_language", "form_title"]
+
+
+def preloop_cases():
+    T = [{"type": "text", "name": "a", "label": "A"}]
+    L = [{"list_name": "l", "name": "a", "label": "A"}]
+    for h in ODD_HEADERS:
+        for dbl in (False, True):
+            row = {"type": "text", "name": "b", "label": "B", h: "v"}
+            if dbl:
+                row["label::en"] = "B"
+                row.pop("label")
+            yield {"stream": "preloop", "kind": "header", "header": h, "useDouble": dbl, "form": {"survey": T + [row]}, "via": "dict"}
+    for key in SETTING_KEYS_READ:
+        for shape in ("plain", "grouped"):
+            for val in ("yes", "x"):
+                for choices in (False, True):
+                    for rows in (True, False):
+                        k = key if shape == "plain" else key + "::x"
+                        st = {k: val}
+                        if not rows:
+                            st["omit_instanceID" if key != "omit_instanceID" else "form_id"] = "yes" if key != "omit_instanceID" else "f"
+                        f = {"survey": T if rows else [], "survey_cols": ["type", "name", "label"], "settings": [st]}
+                        if choices:
+                            f["choices"] = L
+                            if rows:
+                                f["survey"] = T + [{"type": "select_one l", "name": "s", "label": "S"}]
+                        yield {"stream": "preloop", "kind": "settings", "key": k, "form": f, "via": "dict"}
+
+
+def preloop_case(ctx, case):
+    form = case["form"]
+    r = run_case(case)
+    check_no_internal(ctx, case, r)
+    in_fn = r["class"] == "internal"
+    if case["kind"] == "header":
+        m = ctx.driver.call("c17.header", header=case["header"], useDouble=case["useDouble"])
+        here = in_fn and r.get("site") == "sheet_headers.py:process_header"
+    else:
+        st = form["settings"][0]
+        if any(typed_rows({"survey": [st]}) is None for _ in (0,)):
+            return
+        row = typed_rows({"survey": [st]})[0]
+        # ALIAS_TOKENS is for the survey sheet; settings keys are not dealiased there except the id / title aliases
+        row = [[k, v] for k, v in row]
+        omit = str(st.get("omit_instanceID", "")).lower() in YES
+        appends = bool(form["survey"]) or not omit or "instance_name" in st
+        m = ctx.driver.call("c17.settings", row=row, hasChoices=bool(form.get("choices")), appends=appends)
+        here = in_fn and r.get("site") == "xls2json.py:workbook_to_json"
+    ctx.count(f"P:{case['kind']}:model:{m['outcome']}/impl:{'internal-here' if here else r['class']}")
+    if m["outcome"] == "internal":
+        if not (here and r.get("exc") == m["exc"]):
+            ctx.mismatch("pre-loop: model predicts an internal exception the implementation does not raise there", case,
+                         {k: r.get(k) for k in ("class", "exc", "site", "msg")}, m)
+    elif here:
+        ctx.mismatch("pre-loop: the implementation raises an internal exception there, the model does not", case,
+                     {k: r.get(k) for k in ("class", "exc", "site", "msg")}, m)
+
+
+def every_kind_prefix(langs):
+    """a valid block containing one row of every kind the row loop distinguishes (state that the loop carries
+    from row to row — parameter lists, table-list flag, stack, question names — is exercised before the mutated row)"""
+    def lab(row, text):
+        if langs:
+            for lg in langs:
+                row[f"label::{lg}"] = text
+        else:
+            row["label"] = text
+        return row
+    rows = [
+        lab({"type": "select_one_from_file ek_places.csv", "name": "ek_sff", "parameters": "value=code label=title"}, "F"),
+        lab({"type": "select_multiple_from_file ek_towns.xml", "name": "ek_smf"}, "F"),
+        lab({"type": "begin group", "name": "ek_tl", "appearance": "table-list"}, "T"),
+        lab({"type": "select_one ek_list", "name": "ek_t1"}, "A"),
+        lab({"type": "select_one ek_list", "name": "ek_t2"}, "B"),
+        {"type": "end group"},
+        lab({"type": "begin repeat", "name": "ek_rep", "repeat_count": "2"}, "R"),
+        lab({"type": "text", "name": "ek_src"}, "Q"),
+        {"type": "end repeat"},
+        lab({"type": "select_one ${ek_src}", "name": "ek_dyn"}, "D"),
+        lab({"type": "select_one ek_list or_other", "name": "ek_oo"}, "O"),
+        lab({"type": "select_multiple ek_list", "name": "ek_rand", "parameters": "randomize=true seed=3"}, "R"),
+        lab({"type": "rank ek_list", "name": "ek_rank"}, "K"),
+        lab({"type": "range", "name": "ek_range", "parameters": "start=1 end=5 step=1"}, "G"),
+        lab({"type": "image", "name": "ek_img", "parameters": "max-pixels=100"}, "I"),
+        lab({"type": "audio", "name": "ek_aud", "parameters": "quality=low"}, "A"),
+        lab({"type": "geopoint", "name": "ek_geo", "parameters": "capture-accuracy=5"}, "P"),
+        lab({"type": "text", "name": "ek_txt", "parameters": "rows=3"}, "T"),
+        {"type": "calculate", "name": "ek_calc", "calculation": "1 + 1"},
+        {"type": "background-geopoint", "name": "ek_bg", "trigger": "${ek_txt}"},
+        {"type": "xml-external", "name": "ek_ext"},
+        {"type": "audit", "parameters": "track-changes=true"},
+        lab({"type": "note", "name": "ek_note"}, "N"),
+    ]
+    ch = []
+    for nm in ("e1", "e2"):
+        ch.append(lab({"list_name": "ek_list", "name": nm}, nm.upper()))
+    return rows, ch
+
+
+NO_PREFIX = {"empty_survey", "missing_survey", "missing_type_col", "no_choices_sheet", "missing_choice_name_col",
+             "choice_no_name"}  # mutations that remove a sheet / column: the prefix would put it back
+
+
+def form_langs(f):
+    return sorted({k.split("::", 1)[1] for r in f["survey"] + (f.get("choices") or []) for k in r if k.startswith("label::")})
+
+
+def with_prefix(f, expect, langs):
+    """the every-kind block in front of the (mutated) form: survey row numbers of the expectation move down,
+    the block's choices go to the end of the choices sheet (choices row numbers stay)"""
+    rows, ch = every_kind_prefix(langs)
+    g = dict(f)
+    g["survey"] = rows + f["survey"]
+    g["choices"] = (f.get("choices") or []) + ch
+    if expect is not None:
+        e = dict(expect)
+        n = len(rows)
+        if "row" in e and e.get("sheet") != "choices":
+            e["row"] += n
+        if "any" in e:
+            e["any"] = [["row", a[1] + n] if a and a[0] == "row" else a for a in e["any"]]
+        expect = e
+    return g, expect
+
+
 def base_form(rng, big):
+    return base_form0(rng, big)
+
+
+def base_form0(rng, big):
     kw = dict(p_select=rng.choice([0.25, 0.4]), n=(3, 30 if big else 14), types=gen.SIMPLE_TYPES + ["calculate", "calculate", "range"],
               langs=rng.choice([[], [], ["en"], ["en", "fr"]]))
     if rng.random() < 0.3:
@@ -675,8 +812,13 @@ def explore(ctx, factor, bs):
             case = {"stream": "rowloop", "kind": kind, "odd": odd, "form": f, "via": "dict"}
             rowloop_case(ctx, case)
             ctx.record(case, True)
+    # ---- P: header splitting and the settings reads (model Pyxv.PreLoop)
+    if factor == 1:
+        for case in preloop_cases():
+            preloop_case(ctx, case)
+            ctx.record(case, True)
     # ---- A: catalogue
-    n_forms = ctx.pick(14, 110) * factor
+    n_forms = ctx.pick(14, 85) * factor
     site_cap = ctx.pick(40, 120)
     applicable = {m[0]: 0 for m in c17_mut.CATALOGUE}
     done = 0
@@ -684,9 +826,13 @@ def explore(ctx, factor, bs):
     while done < n_forms and tries < n_forms * 5:
         tries += 1
         form = base_form(rng, big)
-        if impl.run(form)["class"] != "ok":
+        # half of the base forms get, in front, a block with one row of every kind the row loop distinguishes
+        langs = form_langs(form)
+        prefixed = rng.random() < 0.5
+        if impl.run(with_prefix(form, None, langs)[0] if prefixed else form)["class"] != "ok":
             ctx.count("A:base-not-valid")
             continue
+        ctx.count("A:base-with-every-kind-prefix" if prefixed else "A:base-plain")
         done += 1
         for mid, sites, apply in c17_mut.CATALOGUE:
             ss = sites(form)
@@ -697,6 +843,8 @@ def explore(ctx, factor, bs):
                 f2, expect = apply(form, s)
                 if f2 is None or expect is None:
                     continue
+                if prefixed and mid not in NO_PREFIX:
+                    f2, expect = with_prefix(f2, expect, langs)
                 applicable[mid] += 1
                 case = {"stream": "catalogue", "mutation": mid, "site": s, "form": f2, "expect": expect, "via": "dict"}
                 catalogue_case(ctx, case)
@@ -704,7 +852,7 @@ def explore(ctx, factor, bs):
     ctx.notes["catalogue_applications"] = applicable
     ctx.notes["catalogue_base_forms"] = done
     # ---- B: vocabulary fuzz
-    n_fuzz = ctx.pick(7000, 120000) * factor
+    n_fuzz = ctx.pick(7000, 100000) * factor
     for i in range(n_fuzz):
         k = i % 10
         if k < 5:
@@ -737,6 +885,8 @@ def replay(ctx, payload, bs):
         fuzz_case(ctx, case, correspond=case.get("kind") == "valid+")
     elif case.get("stream") == "rowloop":
         rowloop_case(ctx, case)
+    elif case.get("stream") == "preloop":
+        preloop_case(ctx, case)
     else:
         check_no_internal(ctx, case, run_case(case))
     return (len(ctx.failures), len(ctx.mismatches)) == before
